@@ -26,7 +26,8 @@ class TableJob:
 
     def __init__(self, name, acts, emit, vals="{1}", hosts='{"0"}', keylen=2, base="<<>>", maxcount=7,
                  viewacct=False, entrydepth=1, maxnodes=99, uar=False, targets=None, workers=8, timeout=1200, root="MC", extra_consts=None,
-                 inv=None, props=None, profile="dev", release_targets=()):
+                 inv=None, props=None, profile="dev", release_targets=(), simulate=None, depth=25):
+        self.simulate, self.depth = simulate, depth
         self.profile = profile
         self.release_targets = list(release_targets)
         self.name, self.acts, self.emit = name, acts, emit
@@ -44,7 +45,8 @@ class TableJob:
     def run_tlc(self):
         r = vlib.tlc_run(self.name, self.root, self.consts, inv=self.inv, prop=self.props, view="View",
                          constraint="Bound", action_constraint="Emit", workers=self.workers,
-                         timeout=self.timeout)
+                         timeout=self.timeout, simulate=self.simulate,
+                         extra_args=(["-depth", str(self.depth)] if self.simulate else []))
         if r.get("timeout"):
             raise ToolError(f"TLC timed out on {self.name}")
         if not r["ok"]:
@@ -154,31 +156,47 @@ def plan(prop, tier):
         acts = ["Insert", "Remove", "RemoveKeepTree"] + list(extra)
         return TableJob(name, acts, emit, keylen=3, maxcount=mc or (2 if q else 3), maxnodes=mn or (5 if q else 6),
                         targets=targets(["u32"] if q else types), timeout=1500)
+    IRK3 = ["Insert", "Remove", "RemoveKeepTree"]
+    def bnd(name, obs, muts=None):
+        """the same structure at the lengths width-2 .. width of the concrete types (shift / mask boundaries)"""
+        muts = muts or IRK3
+        return [TableJob(name + "_bnd", muts + obs, obs, base="<<1>>", maxcount=2 if q else 3, maxnodes=4 if q else 5,
+                         targets=targets(["u8", "u64", "u128", "Ipv4Net"] if q else ALL_TYPES, ("map",), ("stretch:2",)), timeout=1500)]
+    def deep(name, obs, mc=3, mn=6, tg=None):
+        """thorough only: all shapes of the 3-bit universe with value-less leftovers (capped), and random deep
+        walks in the 4-bit universe with the complete fan-out of every visited state"""
+        if q:
+            return []
+        tg = tg or targets(["u8", "u32", "u128", "Ipv4Net", "Ipv6Inet"])
+        return [TableJob(name + "_u3k", IRK3 + obs, obs, keylen=3, maxcount=mc, maxnodes=mn, targets=tg, timeout=3000),
+                TableJob(name + "_sim4", MUT + obs, obs, keylen=4, maxcount=10, maxnodes=16, targets=tg, timeout=3000,
+                         simulate="num=40", depth=30, workers=4)]
     if prop == "C01":
         return [TableJob("c01_u2", MUT + EXACT, MUT + EXACT, vals="{1,2}", maxcount=3 if q else 7,
                          targets=targets(types)),
                 TableJob("c01_u2s", MUT + EXACT, MUT + EXACT, targets=sets),
                 TableJob("c01_entry", ["Insert", "Remove", "RemoveKeepTree", "Entry", "GetMut"], ["Entry", "GetMut"],
                          vals="{1,2}", maxcount=2 if q else 3, entrydepth=1 if q else 2, targets=targets(types)),
-                u3c("c01_u3c", ["Insert", "Remove", "Retain", "Get"], ["Get"])]
+                u3c("c01_u3c", ["Insert", "Remove", "Retain", "Get"], ["Get"])] + \
+               bnd("c01", EXACT + ["Insert", "Remove", "RemoveKeepTree", "RemoveChildren", "Retain"], muts=[])
     if prop == "C02":
-        return [TableJob("c02_u2", MUT + ["Lpm"], ["Lpm"], targets=both)]
+        return [TableJob("c02_u2", MUT + ["Lpm"], ["Lpm"], targets=both)] + bnd("c02", ["Lpm"]) + deep("c02", ["Lpm"], 4, 7)
     if prop == "C03":
-        return [TableJob("c03_u2", MUT + ["Iter"], ["Iter"], targets=both)]
+        return [TableJob("c03_u2", MUT + ["Iter"], ["Iter"], targets=both)] + bnd("c03", ["Iter"]) + deep("c03", ["Iter"], 4, 7)
     if prop == "C04":
         hm = ["Entry", "GetMut", "ViewSet", "ViewRemove"]
         return [TableJob("c04_u2", MUT + ["Len"], MUT + ["Len"], viewacct=not q, targets=both),
                 TableJob("c04_handles", core + hm + ["Len"], hm + core + ["Len"], vals="{1,2}" if not q else "{1}",
                          maxcount=2 if q else 3, entrydepth=1 if q else 2, targets=targets(types))]
     if prop == "C09":
-        return [TableJob("c09_u2", MUT + ["Spm", "Cover", "Lpm"], ["Spm", "Cover"], targets=both)]
+        return [TableJob("c09_u2", MUT + ["Spm", "Cover", "Lpm"], ["Spm", "Cover"], targets=both)] + bnd("c09", ["Spm", "Cover"]) + deep("c09", ["Spm", "Cover"], 4, 7)
     if prop == "C10":
         return [TableJob("c10_u2", MUT + ["Children"], ["Children", "RemoveChildren", "Retain"], targets=both),
-                u3c("c10_u3c", ["Retain", "Children"], ["Children"])]
+                u3c("c10_u3c", ["Retain", "Children"], ["Children"])] + bnd("c10", ["Children", "RemoveChildren"]) + deep("c10", ["Children", "Retain", "RemoveChildren"])
     if prop == "C11":
-        return [TableJob("c11_u2", core + ["ViewDesc"], ["ViewDesc"], targets=both)]
+        return [TableJob("c11_u2", core + ["ViewDesc"], ["ViewDesc"], targets=both)] + bnd("c11", ["ViewDesc"]) + deep("c11", ["ViewDesc"])
     if prop == "C12":
-        return [TableJob("c12_u2", core + ["Find"], ["Find"], targets=both)]
+        return [TableJob("c12_u2", core + ["Find"], ["Find"], targets=both)] + bnd("c12", ["Find"]) + deep("c12", ["Find"], 2, 5)[:1]
     if prop == "C13":
         w = ["GetMut", "LpmMut", "IterMut", "ValuesMut", "ChildrenMut", "ViewValueMut", "ViewIterMut"]
         return [TableJob("c13_u2", core + w, w, vals="{1,2}", maxcount=3 if q else 4, targets=targets(types))]
@@ -509,7 +527,7 @@ def conclude(prop, tier, t0, jobs, tlc_results, reports, traces=()):
         transitions=sum(r.get("generated", 0) for r in tlc_results),
         traces_validated_against_impl=executed,
         samples=samples,
-        exhaustive=True,
+        exhaustive=not any(getattr(j, "simulate", None) for j in jobs),
         tlc_configurations=[dict(name=r["name"], distinct_states=r.get("distinct"), transitions=r.get("generated"),
                                  depth=r.get("depth"), rows_emitted=r["rows"], wall_s=r["wall"],
                                  constants=j.consts, invariants=j.inv, step_properties=j.props)
@@ -567,6 +585,9 @@ def conclude(prop, tier, t0, jobs, tlc_results, reports, traces=()):
 
 def setup():
     try:
+        for pr in ["C%02d" % i for i in range(1, 21)]:
+            if pr not in ("C14", "C17"):
+                plan(pr, "quick"), plan(pr, "thorough")
         vlib.build_harness("dev")
         for f in sorted(os.listdir(vlib.SPEC)):
             if f.endswith(".tla"):
@@ -587,6 +608,35 @@ def replay_file(path):
     rec = json.load(open(path))
     binpath = vlib.build_harness("dev")
     os.makedirs(vlib.WORK, exist_ok=True)
+    if rec.get("engine") in ("trace", "table-observation") and rec.get("coll", "").startswith("trace"):
+        # re-execute the recorded calls on the current tree and validate the new log with TLC
+        d = vlib._trace_dir("replay")
+        evf = os.path.join(d, "events.ndjson")
+        with open(evf, "w") as f:
+            f.write(json.dumps({"a": "Reset"}) + "\n")
+            for st in rec.get("steps", []):
+                if st.get("a") != "Reset":
+                    f.write(json.dumps(st) + "\n")
+            f.write(json.dumps(rec["event"]) + "\n")
+        tf = os.path.join(d, "trace.ndjson")
+        p = subprocess.run([binpath, "rerun", "--type", rec["ptype"], "--events", evf, "--trace", tf], capture_output=True, text=True)
+        if p.returncode == 3:
+            print(f"VIOLATION property={rec['property']} replay={path}")
+            print("  the replayed call does not terminate")
+            return 1
+        if p.returncode != 0:
+            print("TOOL-ERROR rerun failed", p.stderr[-800:])
+            return 2
+        res = vlib.validate_trace(dict(dir=d, trace=tf, ptype=rec["ptype"], profile="replay"))
+        print(json.dumps({k: res[k] for k in ("lines", "lines_ok")}), "rejections:", len(res["rejections"]))
+        if res["rejections"]:
+            print(f"VIOLATION property={rec['property']} replay={path}")
+            return 1
+        print("replay: no disagreement on the current tree")
+        return 0
+    if rec.get("engine") in ("program", "alg", "sched"):
+        print("replay of", rec.get("engine"), "counterexamples: re-run the owning check (./check", rec.get("property"), "quick); the file holds the program / line")
+        return 2
     tmp = os.path.join(vlib.WORK, "replay_one.ndjson")
     row = rec["row"] or {}
     with open(tmp, "w") as f:
